@@ -103,3 +103,28 @@ package diff
 //@ func (*Zipper).isolateDivergence
 //@   noframe
 //@   ensures [C04.iso] [C09.iso] result != nil && result.Preserved == (len(result.Added) == 0 && len(result.Removed) == 0)
+
+// ---- C03 / C02: a comparison is virtually negated (>= to <, > to <=, branches exchanged) only when that is sound
+//@ pred typeOfV(v ssa.Value) = purecall("invoke:golang.org/x/tools/go/ssa.Value.Type", v)
+//@ pred underTy(t types.Type) = purecall("invoke:go/types.Type.Underlying", t)
+//@ pred totalOrderT(t types.Type) = hasType(underTy(t), "*types.Basic") && bitand(purecall("(*go/types.Basic).Info", dyn(underTy(t), "*types.Basic")), 34) != 0
+//@ pred refsOfB(b *ssa.BinOp) = purecall("(*golang.org/x/tools/go/ssa.register).Referrers", fieldaddr(b, "register"))
+
+//@ func newVirtualControlFlowState
+//@   ensures result != nil && fresh(result) && result.swappedBlocks != nil && result.virtualBinOps != nil && result.swappedBlocks != result.virtualBinOps
+
+// isSafeToSwap: exactly the integer and string types (floats are excluded: !(a >= b) is not a < b with NaN).
+//@ func computeVirtualControlFlow$1
+//@   ensures [C03.swap] result ==> totalOrderT(t)
+//@   ensures [C02.swap] totalOrderT(t) ==> result
+
+//@ func computeVirtualControlFlow
+//@   noframe
+//@   mapupdate virtualBinOps assert [C03.swap] key == binOp && ((binOp.Op == token.GEQ && value == token.LSS) || (binOp.Op == token.GTR && value == token.LEQ))
+//@   mapupdate virtualBinOps assert [C03.swap] totalOrderT(typeOfV(binOp.X)) && totalOrderT(typeOfV(binOp.Y))
+//@   mapupdate virtualBinOps assert [C03.swap] ifInstr.Cond == iface(binOp, "*ssa.BinOp") && len(block.Succs) == 2
+//@   mapupdate virtualBinOps assert [C03.swap] refs != nil ==> forall k in 0..len(*refs) :: hasType((*refs)[k], "*ssa.DebugRef") || (*refs)[k] == iface(ifInstr, "*ssa.If")
+//@   mapupdate swappedBlocks assert [C03.swap] key == block && len(block.Succs) == 2
+//@   loop 1 modifies state.virtualBinOps
+//@   loop 1 modifies state.swappedBlocks
+//@   loop 2 invariant [C03.swap] 0 <= #i && #i <= len(*refs) && forall k in 0..#i :: hasType((*refs)[k], "*ssa.DebugRef") || (*refs)[k] == iface(ifInstr, "*ssa.If")
